@@ -955,6 +955,15 @@ Inv_C08_PruneOldestOnly ==
                                                   \/ (PR.listed[i].cr.revision = d.cr.revision /\ PR.listed[i].oid # d.oid) }) - 1
             >= HistLimit(PR)
 
+\* ... and pruning removes history only: a revision that is not archived and still controls an object the newest revision
+\* contains is serving the handover, deleting it deletes that object (found with revisionHistoryLimit 0, fixed by 244db63)
+Inv_C08_PruneNotServing ==
+    (DepWrite /\ W.ev = "Delete" /\ ~W.dry /\ IsSetKind(W.pre.kind) /\ IsListed(PR, W.pre.oid))
+    => LET d == ListedBy(PR, W.pre.oid)
+           newest == { i \in DOMAIN PR.listed : PR.listed[i].cr.revision = MaxRev(PR.listed) } IN
+       \/ d.cr.lifecycle = "Archived" \/ W.pre.cr.lifecycle = "Archived"
+       \/ \A i \in newest : Range(d.cr.controllerOf) \cap SetObjKeys(PR.listed[i]) = {}
+
 \* handover from the outgoing revision S to the incoming (newest, not archived) revision N of the same deployment,
 \* S being N's immediate predecessor: an object N contains is never deleted by S's teardown.
 \* (With intermediate revisions that dropped the object its deletion is merely late and not flagged.)
